@@ -28,3 +28,44 @@ pub assume_specification<'a>[ str::trim_end ](s: &'a str) -> (r: &'a str);
 
 /// unconstrained
 pub assume_specification<'a>[ str::trim_start ](s: &'a str) -> (r: &'a str);
+
+// ---- Option / Result combinators that vstd does not specify (closure contracts via requires/ensures of the closure)
+pub assume_specification<T, E, U, F: FnOnce(T) -> Result<U, E>>[ Result::<T, E>::and_then::<U, F> ](r: Result<T, E>, op: F) -> (o: Result<U, E>)
+    requires
+        r is Ok ==> op.requires((r->Ok_0,)),
+    ensures
+        r is Ok ==> op.ensures((r->Ok_0,), o),
+        r is Err ==> o is Err && o->Err_0 == r->Err_0,
+;
+pub assume_specification<T, E, F: FnOnce(T) -> bool>[ Result::<T, E>::is_ok_and ](r: Result<T, E>, f: F) -> (o: bool)
+    requires
+        r is Ok ==> f.requires((r->Ok_0,)),
+    ensures
+        r is Ok ==> f.ensures((r->Ok_0,), o),
+        r is Err ==> !o,
+;
+pub assume_specification<T, F: FnOnce(T) -> bool>[ Option::<T>::is_some_and ](r: Option<T>, f: F) -> (o: bool)
+    requires
+        r is Some ==> f.requires((r->Some_0,)),
+    ensures
+        r is Some ==> f.ensures((r->Some_0,), o),
+        r is None ==> !o,
+;
+pub assume_specification<T, U, F: FnOnce(T) -> U>[ Option::<T>::map_or::<U, F> ](r: Option<T>, default: U, f: F) -> (o: U)
+    requires
+        r is Some ==> f.requires((r->Some_0,)),
+    ensures
+        r is Some ==> f.ensures((r->Some_0,), o),
+        r is None ==> o == default,
+;
+pub assume_specification<T, E, F: FnOnce(E) -> T>[ Result::<T, E>::unwrap_or_else::<F> ](r: Result<T, E>, op: F) -> (o: T)
+    requires
+        r is Err ==> op.requires((r->Err_0,)),
+    ensures
+        r is Ok ==> o == r->Ok_0,
+        r is Err ==> op.ensures((r->Err_0,), o),
+;
+pub assume_specification<T, E>[ Option::<Result<T, E>>::transpose ](r: Option<Result<T, E>>) -> (o: Result<Option<T>, E>)
+    ensures
+        o == (match r { None => Ok::<Option<T>, E>(None), Some(Ok(v)) => Ok(Some(v)), Some(Err(e)) => Err(e) }),
+;
